@@ -71,3 +71,13 @@ Theorem C09_every_identity_checked :
         exists ck v, nth_error cks j = Some ck /\ length ck = qdf /\ nth_error van j = Some v /\
           v = ((fpow zeta (2 ^ log_n) - 1) * peval ck (fpow zeta (2 ^ log_n)))%F.
 Proof. exact (@every_identity_checked). Qed.
+
+(* why the quotient commitment is indispensable: openings chosen after zeta satisfy the identity check for ANY
+   accumulator values, i.e. for any trace; the forger of harness/src/c09.rs makes exactly this choice *)
+From Verif Require Import Proofs.StarkForge.
+Theorem C09_uncommitted_quotient_always_passes :
+  forall {F : Type} {FO : FieldOps F} {FL : FieldLaws F} (log_n qdf : nat) (zeta : F) (van : list F),
+    qdf <> 0 -> (exp_power_of_2 zeta log_n - 1 <> 0)%F ->
+    let q := forged_quotient qdf (exp_power_of_2 zeta log_n - 1)%F van in
+    length q = qdf * length van /\ quotient_check log_n qdf zeta van (Some q) = Some true.
+Proof. exact @uncommitted_quotient_always_passes. Qed.
